@@ -1,15 +1,25 @@
-import os, sys
-from vrun import H, VERIF
+import os, random, sys
+from vrun import H, VERIF, run_check
 sys.path.insert(0, os.path.join(VERIF, "engines", "kani", "core"))
 import gen_c03  # noqa: E402
 
 OPS = "K<i>=clone handle i, D<i>=drop handle i, E<i>=handle i .entered() (owned guard), X<g>=guard g .exit() (handle back), Y<g>=drop guard g, R<i>=record via handle i, S<i>=in_scope via handle i"
 
 
-def _skeletons():
+N5_SAMPLE = 1000
+
+
+def _skeletons(seed=0, thorough=False):
+    """<= 3 ops: quick; 4 ops: thorough, all; 5 ops: thorough, a VERIF_SEED-chosen sample of N5_SAMPLE (the full set of
+    about 4100 takes over two hours; successive seeds walk through it)"""
     hs = []
     for n, tier in ((1, "quick"), (2, "quick"), (3, "quick"), (4, "thorough"), (5, "thorough")):
-        for seq in gen_c03.skeletons(n, n):
+        if n == 5 and not thorough:
+            continue
+        seqs = gen_c03.skeletons(n, n)
+        if n == 5 and len(seqs) > N5_SAMPLE:
+            seqs = random.Random(seed).sample(seqs, N5_SAMPLE)
+        for seq in seqs:
             hs.append(H("gen_c03::c03_sk_" + gen_c03.name(seq), tier=tier,
                         desc="handle/guard program %s (%s) on one span under a foreign default: call ledger after every step and at quiescence" % (" ".join(seq), OPS),
                         sym="simulated thread of every entered() (exit must happen on it)"))
@@ -37,14 +47,26 @@ SPEC = {
                   "EnteredSpan::{exit, drop}, Entered::drop, Inner::{clone, follows_from, record}", "tracing::instrument::{Instrumented::poll, PinnedDrop for Instrumented}",
                   "tracing_core::dispatch::{get_default, Dispatch::{clone_span, try_close, enter, exit, current_span}}"],
     "sym": SYM,
-    "bounds": "all handle/guard programs of <= 3 (quick) / <= 5 (thorough) operations over <= 3 live handles+guards of one span (exhaustive for the length), plus 10 hand-written shapes (drop orders, cross-thread, disabled spans, parent/child/root, current capture, instrumented futures ready after <= 2 polls)",
+    "bounds": "all handle/guard programs of <= 3 (quick) / <= 4 (thorough) operations over <= 3 live handles+guards of one span (exhaustive for the length) plus, in the thorough tier, a VERIF_SEED-chosen sample of 1000 of the ~4100 programs of 5 operations (the first 2500 of the full set were run once: all hold), plus 10 hand-written shapes (drop orders, cross-thread, disabled spans, parent/child/root, current capture, instrumented futures ready after <= 2 polls)",
     "outside": "handles used concurrently from real threads; tracing-futures combinators; programs longer than the harnessed shapes; span!-macro construction (C01/C10)",
     "stubs": ["std::rt::thread_cleanup -> no-op", "core::fmt::write -> Ok(())", "H1 simulated threads", "unregistered Dispatch constructor"],
     "assumptions": ["the recording collector never closes a span (try_close returns false); ledger counts calls"],
     "manifest": {
         "text": "Bounded model checking of span-handle programs against a call ledger: each harness is a program shape (clone/drop orders, borrowed and owned guards out of order, cross-thread moves, disabled spans, parent/child, current-span capture, instrumented futures with symbolic poll counts) executed on the real Span/Instrumented code under a foreign default collector; the solver picks orders, handles, threads and counts. The ledger oracle is the property statement itself.",
-        "note": "Programs are enumerated exhaustively up to 4 operations plus hand-written shapes (not all programs); relative to the sequential thread model of H1.",
+        "note": "Programs are enumerated exhaustively up to 4 operations (5: seed-sampled) plus hand-written shapes (not all programs); relative to the sequential thread model of H1.",
         "technique": "bounded model checking of the real span.rs / instrument.rs (Kani/CBMC) with symbolic orders and counts, ledger oracle",
     },
     "explanation": "",
 }
+
+
+FIXED = 10
+
+
+def spec(tier="quick", seed=0):
+    hs = SPEC["harnesses"][:FIXED] + _skeletons(seed, tier == "thorough")
+    return dict(SPEC, harnesses=hs)
+
+
+def run(tier, seed):
+    return run_check(spec(tier, seed), tier, seed)
